@@ -74,8 +74,15 @@ QUOTED = {"<start>": ["<item>", "<item>,<start>"], "<item>": ["\"<var>\"", "(<va
 SHAREDALT = {"<start>": ["<decl>"], "<decl>": ["<ws><id><ows>=<ows><id>"], "<ws>": [" "], "<ows>": ["", " "], "<id>": ["a", "b"]}
 PAIRS = {"<start>": ["<pair>", "<pair>;<start>"], "<pair>": ["<entry>=<entry>"], "<entry>": ["<key>", "(<pair>)"], "<key>": ["a", "b"]}
 
+# sibling of ASSGN2: the same nonterminal names, other productions (<assgn> has a second alternative, <digit> reaches <var>);
+# evaluated after ASSGN2 in the same interpreter (state kept per nonterminal name must not leak across grammars)
+ASSGN2S = {"<start>": ["<stmt>"], "<stmt>": ["<assgn> ; <stmt>", "<assgn>"], "<assgn>": ["<var> := <rhs>", "!<var>"],
+           "<rhs>": ["<var>", "<digit>"], "<var>": ["a", "b"], "<digit>": ["0", "1", "#<var>"]}
+SIBLING_OF = {"ASSGN2S": ("ASSGN2", "a := 1 ; b := a")}      # grammar -> (earlier grammar, an input of it)
+WIDE12 = {"<start>": ["<row>"], "<row>": ["<d>" * 12], "<d>": ["0", "1"]}
+
 GRAMMARS = {
-    "SHAREDALT": SHAREDALT, "PAIRS": PAIRS,
+    "SHAREDALT": SHAREDALT, "PAIRS": PAIRS, "ASSGN2S": ASSGN2S, "WIDE12": WIDE12,
     "ASSGN": ASSGN, "ASSGN2": ASSGN2, "XMLISH": XMLISH, "NUM": NUM, "NULLABLE": NULLABLE,
     "AMBIG": AMBIG, "LEFTREC": LEFTREC, "RIGHTREC": RIGHTREC, "MULTICHAR": MULTICHAR,
     "CSVISH": CSVISH, "TWOSTART": TWOSTART, "LENGTHS": LENGTHS,
@@ -140,6 +147,31 @@ def hand_formulas(name):
         add("rename-capture", AND(EX("<var>", "v", lit("v", "a")),
                                   FA("<var>", "v", EX("<assgn>", "s", EX("<var>", "v_0", AND(SMT(A("=", V("v"), V("v_0"))), PRED("different_position", "v", "v_0")), inn="s")))))
         add("rename-capture", AND(FA("<var>", "x", NOT(lit("x", "c"))), EX("<var>", "x", FA("<stmt>", "s", FA("<var>", "x_0", OR(SMT(A("=", V("x"), V("x_0"))), PRED("before", "x", "x_0")), inn="s")))))
+        # numeric quantifier (quantifier-elimination strategy) + structural predicate whose argument is the root
+        add("numeric-pred-root", EXI("n", EX("<assgn>", "a", AND(PRED("inside", "a", "start"), COUNT("a", "<var>", "n")))))
+        add("numeric-pred-root", FAI("n", FA("<stmt>", "t", OR(PRED("nth", 1, "t", "start"), NOT(PRED("direct_child", "t", "start")),
+                                                                SMT(A("<", A("str.to.int", V("n")), I(0)))))))
+        add("numeric-pred-root", EXI("n", AND(SMT(A("=", A("str.to.int", V("n")), I(1))), EX("<stmt>", "t", PRED("direct_child", "t", "start")))))
+        # match expressions over the root nonterminal reaching several levels down
+        add("mexpr-root", FA("<start>", "s", NOT(SMT(A("=", V("l"), V("r")))), mexpr=M(MNT("<var>", "l"), MCH(" := "), MNT("<rhs>", "r"))))
+        add("mexpr-root", EX("<start>", "s", SMT(A("=", V("l"), V("r"))), mexpr=M(MNT("<var>", "l"), MCH(" := "), MNT("<var>", "r"))))
+        add("mexpr-root", FA("<start>", "s", lit("l", "a"), mexpr=M(MNT("<var>", "l"), MCH(" := "), MNT("<rhs>"), MCH(" ; "), MNT("<stmt>"))))
+        # SMT-level connectives (prefix notation) in negative positions
+        O_ = SMT(A("or", A("=", V("v"), S("a")), A("=", V("d"), S("1"))))
+        N_ = SMT(A("and", A("=", V("v"), S("b")), A("=", V("d"), S("1"))))      # ("not" inside an S-expression is not ISLa syntax)
+        add("smt-connective-negated", FA("<var>", "v", FA("<digit>", "d", NOT(O_))))
+        add("smt-connective-negated", FA("<assgn>", "x", FA("<var>", "v", FA("<digit>", "d", OR(NOT(O_), lit("x", "a := 1")), inn="x"), inn="x")))
+        add("smt-connective-negated", EX("<var>", "v", EX("<digit>", "d", NOT(N_))))
+        add("smt-connective-negated", FA("<var>", "v", EX("<digit>", "d", NOT(OR(O_, N_)))))
+        # several semantic-predicate atoms over the same tree
+        add("count-conj", AND(COUNT("start", "<var>", 3), COUNT("start", "<digit>", 1)))
+        add("count-conj", AND(COUNT("start", "<assgn>", 2), COUNT("start", "<var>", 3)))
+        add("count-conj", EX("<stmt>", "s", AND(COUNT("s", "<var>", 2), COUNT("s", "<digit>", 0), COUNT("s", "<assgn>", 1))))
+        # copy-pasted blocks whose variable names share a stem and differ in a numeric suffix
+        add("rename-capture", AND(FA("<assgn>", "e_1", EX("<var>", "e_2", lit("e_2", "a"), inn="e_1")),
+                                  FA("<assgn>", "e_1", EX("<var>", "e_2", NOT(lit("e_2", "b")), inn="e_1"))))
+        add("rename-capture", AND(EX("<stmt>", "e_1", FA("<var>", "e_2", lit("e_2", "a"), inn="e_1")),
+                                  EX("<stmt>", "e_1", FA("<var>", "e_2", FA("<digit>", "e_3", OR(lit("e_2", "b"), lit("e_3", "0")), inn="e_1"), inn="e_1"))))
         add("vacuous-body", FA("<digit>", "d", FALSE))
         add("vacuous-body", EX("<digit>", "d", TRUE))
         add("vacuous-body", FA("<digit>", "d", SMT(A("=", I(1), I(2)))))
